@@ -72,7 +72,7 @@ def build(spec, engine_cls=None, emitter=None, extra_steps=None, extra_topology=
     for p in spec['procs']:
         pid = p['pid']
         params = {'pid': pid, 'ts': p['ts'], 'cond': p.get('cond'), 'toggle': p.get('toggle', 0),
-                  'amount': p.get('amount', 1), 'amount2': p.get('amount2'), 'pair': p.get('pair'), 'timestep': 1.0}
+                  'amount': p.get('amount', 1), 'amount2': p.get('amount2'), 'pair': p.get('pair'), 'vec': p.get('vec'), 'timestep': 1.0}
         if p.get('fail_at') is not None:
             params['fail_at'] = p['fail_at']
         if p.get('cond_path'):
@@ -98,6 +98,9 @@ def build(spec, engine_cls=None, emitter=None, extra_steps=None, extra_topology=
             topo[name]['acc2'] = topo[name]['acc']
         if p.get('pair'):
             topo[name]['da'] = topo[name]['db'] = ('pair', name)
+        if p.get('vec'):
+            topo[name]['vec'] = ('vec', name)
+            topo[name]['vec2'] = ('vec2', name)
     steps = dict(extra_steps or {})
     topo.update(extra_topology or {})
     flow = dict(extra_flow or {})
